@@ -1,15 +1,140 @@
 (* C13 - Scheduling: strict queue priority, bounded file multiplexing, block interleaving. *)
-From FluteV Require Import Model.SenderCtl Model.BlockEnc Spec.SenderSpec Proofs.SenderProofs Proofs.BlockEncProofs.
+From FluteV Require Import Model.SenderCtl Model.BlockEnc Spec.SenderSpec Proofs.SenderProofs Proofs.BlockEncProofs
+     Proofs.C13Full.
+From Coq Require Import Sorted.
 Open Scope N_scope.
 
-(* Full statement (kept visible; P_C13_priority is evaluated on the implementation's packets
-   against the model state before each read on every run - partial as a theorem):
-   for every reachable state s and instant, if sender_read returns an object packet of priority p
-   then no queue of smaller key is ready in s. *)
+(* ---------- history level ----------
+   Unconditional statement (kept visible): on every run from [init_st], whenever a read returns an
+   object packet of priority p no queue of smaller key is ready in the state before the read.
+   It is FALSE of the model as it stands ([C13_strict_priority_full_refuted]): the list of queues handed to
+   [init_st] need not be sorted, and [prio_of_toi] resolves a TOI to the wrong object when an
+   object is added under the TOI of an object the sender still holds in a transmission slot. *)
 Definition C13_strict_priority_full : Prop :=
   forall fdt_npk fdt_ok divf ops full dur car sid queues,
     Forall (fun es => match fst es with TRead now r _ _ => P_C13_priority (snd es) now r = true | _ => True end)
            (model_trace fdt_npk fdt_ok divf (init_st full dur car sid queues) ops).
+
+Theorem C13_strict_priority_full_refuted : ~ C13_strict_priority_full.
+Proof. exact strict_priority_unconditional_false. Qed.
+Print Assumptions C13_strict_priority_full_refuted.
+
+(* (H1) strict priority along every run, under the two side conditions real configurations satisfy:
+   the priority queues are kept by ascending, distinct key (a BTreeMap in the implementation), and
+   no object is added under the TOI of an object that still holds a transmission slot or waits for
+   one ([ops_fresh]: checked on the run; the TOI allocator hands a TOI out again only after its
+   previous holder has been dropped). *)
+Theorem C13_strict_priority : forall fdt_npk fdt_ok divf ops full dur car sid queues,
+  StronglySorted N.lt (map fst queues) ->
+  ops_fresh fdt_npk fdt_ok divf (init_st full dur car sid queues) ops = true ->
+  Forall (fun es => match fst es with TRead now r _ _ => P_C13_priority (snd es) now r = true | _ => True end)
+         (model_trace fdt_npk fdt_ok divf (init_st full dur car sid queues) ops).
+Proof. exact strict_priority_from_init. Qed.
+Print Assumptions C13_strict_priority.
+
+(* the same on any state that satisfies the invariant [Inv] (established by [init_st]: [Inv_init],
+   preserved by every operation: [Inv_step]) *)
+Theorem C13_strict_priority_read : forall fdt_npk fdt_ok divf now s o s',
+  Inv s -> sender_read fdt_npk fdt_ok divf now s = (o, s') -> P_C13_priority s now o = true.
+Proof. exact priority_read. Qed.
+Print Assumptions C13_strict_priority_read.
+
+Theorem C13_invariant_init : forall full dur car sid queues,
+  StronglySorted N.lt (map fst queues) -> Inv (init_st full dur car sid queues).
+Proof. exact Inv_init. Qed.
+Print Assumptions C13_invariant_init.
+
+Theorem C13_invariant_step : forall fdt_npk fdt_ok divf s o,
+  Inv s -> op_fresh s o = true -> Inv (snd (step fdt_npk fdt_ok divf s o)).
+Proof. exact Inv_step. Qed.
+Print Assumptions C13_invariant_step.
+
+(* (H2) the model's own start/stop events pass the event predicate the checker evaluates on the
+   implementation (FIFO admission within a queue; at most max(1, multiplex_files) objects of a
+   queue in transmission), on every state that satisfies [Inv] and holds no object under TOI 0
+   ([NZs]; TOI 0 is the FDT: its end of transfer is not reported as an event) *)
+Theorem C13_events_read : forall fdt_npk fdt_ok divf s now,
+  Inv s -> NZs s ->
+  let '(o, s') := sender_read fdt_npk fdt_ok divf now (clear_log s) in
+  P_C13_events fdt_npk fdt_ok divf s now (evlog s') = C13ok.
+Proof. exact events_read_clear. Qed.
+Print Assumptions C13_events_read.
+
+Theorem C13_events_read_append : forall fdt_npk fdt_ok divf now s o s',
+  Inv s -> NZs s -> sender_read fdt_npk fdt_ok divf now s = (o, s') ->
+  exists evs, evlog s' = evlog s ++ evs /\ P_C13_events fdt_npk fdt_ok divf s now evs = C13ok.
+Proof. exact events_read. Qed.
+Print Assumptions C13_events_read_append.
+
+(* every reachable state qualifies *)
+Theorem C13_events_reachable : forall fdt_npk fdt_ok divf ops full dur car sid queues now,
+  StronglySorted N.lt (map fst queues) ->
+  ops_fresh fdt_npk fdt_ok divf (init_st full dur car sid queues) ops = true ->
+  ops_nz ops = true ->
+  let s := snd (run_ops fdt_npk fdt_ok divf (init_st full dur car sid queues) ops) in
+  let '(o, s') := sender_read fdt_npk fdt_ok divf now (clear_log s) in
+  P_C13_events fdt_npk fdt_ok divf s now (evlog s') = C13ok.
+Proof. exact events_read_reachable. Qed.
+Print Assumptions C13_events_reachable.
+
+(* non-vacuity: the scenario of [C13_example_priority] meets the side conditions, and its reads start
+   and stop transfers *)
+Example C13_side_conditions_hold :
+  let hi := mk_odesc 1 0 1 1 1 CNone TNone false None [] in
+  let lo := mk_odesc 2 3 1 1 1 CNone TNone false None [] in
+  let i := init_st true 3600000000000 (CDelay 1000000000) 1 [(0, 1%nat); (3, 1%nat)] in
+  let ops := [OpAdd lo None true; OpAdd hi None true; OpPublish 0; OpRead 0; OpRead 0] in
+  let s := snd (run_ops cex_npk cex_ok cex_div i ops) in
+  let evs := evlog (snd (sender_read cex_npk cex_ok cex_div 0 (clear_log s))) in
+  (ops_fresh cex_npk cex_ok cex_div i ops, ops_nz ops, evs, P_C13_events cex_npk cex_ok cex_div s 0 evs)
+  = (true, true, [EvStop 1; EvStart 2], C13ok).
+Proof. vm_compute. reflexivity. Qed.
+
+(* ---------- why each side condition is needed ---------- *)
+Definition x_run (i : st) (ops : list op) : st := snd (run_ops cex_npk cex_ok cex_div i ops).
+Definition x_read (s : st) : rout := fst (sender_read cex_npk cex_ok cex_div 0 s).
+Definition x_events (s : st) : list event := evlog (snd (sender_read cex_npk cex_ok cex_div 0 (clear_log s))).
+
+(* queues not sorted: queue 3 is visited before queue 0 *)
+Example C13_priority_unsorted_refuted :
+  let lo := mk_odesc 2 3 1 1 1 CNone TNone false None [] in
+  let hi := mk_odesc 1 0 1 1 1 CNone TNone false None [] in
+  let i := init_st true 3600000000000 (CDelay 1000000000) 1 [(3, 1%nat); (0, 1%nat)] in
+  let ops := [OpAdd lo None true; OpAdd hi None true; OpPublish 0; OpRead 0] in
+  let s := x_run i ops in
+  (x_read s, P_C13_priority s 0 (x_read s), ops_fresh cex_npk cex_ok cex_div i ops) = (RObj 2 true, false, true).
+Proof. vm_compute. reflexivity. Qed.
+
+(* an object added under the TOI of an object that still holds a slot (sorted queues) *)
+Example C13_priority_reused_toi_refuted :
+  let s := x_run cex_init (firstn 8 cex_ops) in
+  (x_read s, P_C13_priority s 0 (x_read s), ops_fresh cex_npk cex_ok cex_div cex_init cex_ops) = (RObj 5 true, false, false).
+Proof. vm_compute. reflexivity. Qed.
+
+(* two waiting objects under one TOI: the event predicate replays the start on the wrong one *)
+Example C13_events_reused_toi_refuted :
+  let z := mk_odesc 9 1 1 1 1 CNone TNone false None [] in
+  let x := mk_odesc 2 1 1 1 1 CNone TNone false None [] in
+  let y := mk_odesc 2 0 1 1 1 CNone TNone false None [] in
+  let i := init_st true 3600000000000 (CDelay 1000000000) 1 [(0, 1%nat); (1, 1%nat)] in
+  let ops := [OpAdd z None true; OpAdd x None true; OpAdd y None true; OpPublish 0; OpRead 0] in
+  let s := x_run i ops in
+  (x_read s, x_events s, P_C13_events cex_npk cex_ok cex_div s 0 (x_events s),
+   ops_fresh cex_npk cex_ok cex_div i ops, ops_nz ops)
+  = (RObj 2 true, [EvStart 2], C13fifo, false, true).
+Proof. vm_compute. reflexivity. Qed.
+
+(* an object under TOI 0: its end of transfer is not reported, the replay keeps it in transmission *)
+Example C13_events_toi0_refuted :
+  let x := mk_odesc 0 0 1 1 1 CNone TNone false None [] in
+  let y := mk_odesc 2 0 1 1 1 CNone TNone false None [] in
+  let i := init_st true 3600000000000 (CDelay 1000000000) 1 [(0, 1%nat)] in
+  let ops := [OpAdd x None true; OpAdd y None true; OpPublish 0; OpRead 0; OpRead 0] in
+  let s := x_run i ops in
+  (x_read s, x_events s, P_C13_events cex_npk cex_ok cex_div s 0 (x_events s),
+   ops_fresh cex_npk cex_ok cex_div i ops, ops_nz ops)
+  = (RObj 2 true, [EvStart 2], C13multiplex, true, false).
+Proof. vm_compute. reflexivity. Qed.
 
 (* (1) queues are served in ascending key order and the first queue that has a packet wins *)
 Theorem C13_first_queue_wins : forall fdt_npk fdt_ok divf q r done now s o q1 s1,
